@@ -180,19 +180,19 @@ theorem step_mu_decreases {c : Cfg} {s s' : St} (nS nP nK : Nat) (hi : Inv s)
       · cases o with
         | ok =>
           simp only [Option.some.injEq] at hs; subst hs
-          have := key { s.subs k with pc := .waiting, calls := (s.subs k).calls ++ rc, replayed := rc.length, regAt := some s.log.length } rfl rfl
+          have := key { s.subs k with pc := .waiting, calls := (s.subs k).calls ++ rc, replayed := rc.length, regAt := some s.log.length, storeAt := s.store } rfl rfl
           simp only [subsM, pubsM, shutsM, setSub] at this ⊢; omega
         | panic =>
           simp only [Option.some.injEq] at hs; subst hs
-          have := key { s.subs k with pc := .waiting, calls := (s.subs k).calls ++ rc, replayed := rc.length, regAt := some s.log.length } rfl rfl
+          have := key { s.subs k with pc := .waiting, calls := (s.subs k).calls ++ rc, replayed := rc.length, regAt := some s.log.length, storeAt := s.store } rfl rfl
           simp only [subsM, pubsM, shutsM, setSub] at this ⊢; omega
         | err =>
           simp only [Option.some.injEq] at hs; subst hs
           simp only [sendChan, closeChan, setSub, upd_same, hch0]
           simp only [Bool.false_eq_true, if_false, Option.isSome_none, upd_same]
-          have := key { s.subs k with pc := .waiting, calls := (s.subs k).calls ++ rc, replayed := rc.length, ch := ⟨some (.replay k), true⟩ } rfl rfl
-          have e : subsM nS { s with subs := upd (upd (upd s.subs k { s.subs k with pc := .waiting, calls := (s.subs k).calls ++ rc, replayed := rc.length }) k { s.subs k with pc := .waiting, calls := (s.subs k).calls ++ rc, replayed := rc.length, ch := ⟨some (.replay k), false⟩ }) k { s.subs k with pc := .waiting, calls := (s.subs k).calls ++ rc, replayed := rc.length, ch := ⟨some (.replay k), true⟩ } }
-              = subsM nS (setSub s k { s.subs k with pc := .waiting, calls := (s.subs k).calls ++ rc, replayed := rc.length, ch := ⟨some (.replay k), true⟩ }) := by
+          have := key { s.subs k with pc := .waiting, calls := (s.subs k).calls ++ rc, replayed := rc.length, ch := ⟨some (.replay k), true⟩, storeAt := s.store } rfl rfl
+          have e : subsM nS { s with subs := upd (upd (upd s.subs k { s.subs k with pc := .waiting, calls := (s.subs k).calls ++ rc, replayed := rc.length, storeAt := s.store }) k { s.subs k with pc := .waiting, calls := (s.subs k).calls ++ rc, replayed := rc.length, ch := ⟨some (.replay k), false⟩, storeAt := s.store }) k { s.subs k with pc := .waiting, calls := (s.subs k).calls ++ rc, replayed := rc.length, ch := ⟨some (.replay k), true⟩, storeAt := s.store } }
+              = subsM nS (setSub s k { s.subs k with pc := .waiting, calls := (s.subs k).calls ++ rc, replayed := rc.length, ch := ⟨some (.replay k), true⟩, storeAt := s.store }) := by
             apply sumTo_congr; intro j _
             by_cases hjk : j = k
             · subst hjk; simp [setSub, upd]
@@ -202,7 +202,7 @@ theorem step_mu_decreases {c : Cfg} {s s' : St} (nS nP nK : Nat) (hi : Inv s)
           omega
       · split at hs
         · simp only [Option.some.injEq] at hs; subst hs
-          have := key { s.subs k with pc := .waiting, calls := (s.subs k).calls ++ rc, replayed := rc.length, regAt := some s.log.length } rfl rfl
+          have := key { s.subs k with pc := .waiting, calls := (s.subs k).calls ++ rc, replayed := rc.length, regAt := some s.log.length, storeAt := s.store } rfl rfl
           simp only [subsM, pubsM, shutsM, setSub] at this ⊢; omega
         · simp at hs
     · simp at hs
